@@ -153,8 +153,9 @@ fn c04_async_client(case: &Case) {
     let window = range(1, 6.min(ncallers + batch_n.min(4)).max(1)) as usize;
     let inject_unknown = pick(&[0u32, 0, 20, 50]);
     let inject_dup = pick(&[0u32, 0, 20, 50]);
+    let n_forwards = pick(&[0u32, 0, 1, 2, 4]);
     case.sample(json!({"callers": ncallers, "calls_each": calls_each, "batch": batch_n, "server_window": window,
-        "inject_unknown_pct": inject_unknown, "inject_dup_pct": inject_dup}));
+        "inject_unknown_pct": inject_unknown, "inject_dup_pct": inject_dup, "forwarded_messages": n_forwards}));
     let case = case.clone();
     aio::run(&case.clone(), 3_600, async move {
         let listener = TcpListener::bind("127.0.0.1:0").await.unwrap();
@@ -173,8 +174,16 @@ fn c04_async_client(case: &Case) {
                 while !eof && outstanding.len() < window {
                     match timeout(Duration::from_millis(20), fr.next()).await {
                         Ok(Ok(Some(f))) => {
-                            if !seen_ids.insert(f.id) {
+                            // ids the client mints itself are never reused; a forwarded message
+                            // carries its caller's id, which must at least not collide with a
+                            // request that is still outstanding
+                            let forwarded = f.query_str().starts_with("/fwd/");
+                            if !seen_ids.insert(f.id) && !forwarded {
+                                // (forwards reuse their caller's id legitimately once the earlier one completed)
                                 srv_case.fail("duplicate-request-id", format!("request id {} issued twice on one connection", f.id));
+                            }
+                            if outstanding.iter().any(|o: &Frame| o.id == f.id) {
+                                srv_case.fail("duplicate-request-id", format!("request id {} is on the wire twice at the same time", f.id));
                             }
                             if f.notify != 0 {
                                 continue;
@@ -203,8 +212,11 @@ fn c04_async_client(case: &Case) {
                         break;
                     }
                 }
+                // (a duplicate of a forwarded message's response would be indistinguishable
+                // from the response to a later forward that legitimately reuses that id)
                 if simkernel::choose(100) < inject_dup
                     && let Some(prev) = answered.last()
+                    && !prev.query_str().starts_with("/fwd/")
                 {
                     srv_case.probe("fault.duplicate_response");
                     if aio::write_all(&mut wr, &echo_of(prev).encode()).await.is_err() {
@@ -245,6 +257,38 @@ fn c04_async_client(case: &Case) {
                     if let Err(e) = do_call(&c, kind, t, None).await {
                         let class = if e.starts_with("WRONG-RESPONSE") { "wrong-response" } else { "call-failed-without-fault" };
                         case.fail(class, e);
+                    }
+                }
+            }));
+        }
+        // forwarded messages carry caller-chosen ids: some far away from the client's own
+        // counter, some colliding with ids that are probably in flight right now. A colliding
+        // forward may be refused; it must never disturb anybody else.
+        for k in 0..n_forwards {
+            let c = client.clone();
+            let case = case.clone();
+            // ids far away from the client's own counter; pairs of forwards share an id
+            let collide = n_forwards >= 2;
+            let id = (1u64 << 33) + (k / 2) as u64;
+            hs.push(tokio::spawn(async move {
+                jitter().await;
+                let body = serde_json::to_vec(&json!({"fwd": k})).unwrap();
+                let msg = repe::Message::builder().id(id).query_str(&format!("/fwd/{k}")).body_bytes(body.clone()).body_format_code(2).build();
+                match c.forward_message(&msg).await {
+                    Ok(Some(m)) => {
+                        case.probe("forwarded_message_answered");
+                        case.check(m.header.id == id && m.body == body && m.query == format!("/fwd/{k}").as_bytes(), "wrong-response", || {
+                            format!("forward_message(id {id}) got id {} query {:?} body {:?}", m.header.id, String::from_utf8_lossy(&m.query), String::from_utf8_lossy(&m.body))
+                        });
+                    }
+                    Ok(None) => case.fail("wrong-response", format!("forward_message(id {id}) of a request returned no response")),
+                    Err(e) => {
+                        // the only acceptable failure: refused because that id is in flight
+                        if collide && e.to_string().contains("already pending") {
+                            case.probe("colliding_forward_refused");
+                        } else {
+                            case.fail("call-failed-without-fault", format!("forward_message(id {id}) failed: {e}"));
+                        }
                     }
                 }
             }));
